@@ -11,6 +11,8 @@ static bool ExpectLoaded(int archive, const DynNode& d)
 	if (archive == A_XML)
 	{
 		if (d.kind == K::Null) return false;                       // XML has no null value: an empty element is "not loaded"
+		if ((d.kind == K::Arr || d.kind == K::Obj) && d.items.empty()) return false;   // a child-less element is null
+		if (d.kind == K::Bin && d.bin.empty()) return false;
 		if (IsString(d.kind)) return Repr(d).size() > std::string(KName(d.kind)).size() + 1;   // empty text is treated as null
 	}
 	if (archive == A_CSV && IsString(d.kind)) return true;       // CSV string cells are returned as they are (empty included)
@@ -49,6 +51,8 @@ static DynNode Expect(const DynNode& doc, const DynNode& skel)
 // compares the recorded results of every programmed object against the reference; returns "" when all agree
 static std::string CheckPrograms(int archive, const DynNode& doc, const DynNode& skelPlan, const DynNode& loaded, const std::string& path)
 {
+	// a child-less XML element is null: its scope is never opened, so no request of a nested program runs
+	if (archive == A_XML && (doc.kind == K::Obj || doc.kind == K::Arr) && doc.items.empty()) return std::string();
 	if (doc.kind == K::Obj && skelPlan.useProgram)
 	{
 		if (loaded.results.size() < skelPlan.program.size()) return path + ": only " + std::to_string(loaded.results.size()) + " of " + std::to_string(skelPlan.program.size()) + " requests were executed";
@@ -135,7 +139,6 @@ Outcome RunC03(RunCtx& ctx)
 	g.maxDepth = 3;
 	if (s.chance(sim::L_CFG, 1, 2)) g.kindMask = s.draw(sim::L_CFG, 0xFFFFFFFFu) | (1u << static_cast<int>(K::I32));
 	// regions of the findings owned by C01 are not entered here (they would only re-report the same defects)
-	if (archive == A_XML) g.allowEmptyContainers = false;    // KF-XML-EMPTY-CONTAINER
 	if (archive == A_JSON) g.simpleFloats = true;            // KF-JSON-DOUBLE-PRECISION
 	SerializationOptions o = GenLoadOptions(s, sim::L_CFG, archive);
 
@@ -155,6 +158,13 @@ Outcome RunC03(RunCtx& ctx)
 		DynNode obj(K::Obj);
 		uint32_t budget = g.maxNodes;
 		GenTree(s, sim::L_DOC, obj, g, 1, budget);
+		if (archive == A_XML && obj.items.empty())
+		{
+			// a child-less XML element is null, not an object: the object under test has at least one key there
+			Key k; k.s = "k0";
+			obj.keys.push_back(k);
+			obj.items.emplace_back(K::I32);
+		}
 		DynNode sentinel(s.chance(sim::L_DOC, 1, 2) ? K::I32 : K::Str);
 		sentinel.i32 = 0x5E471E1;
 		sentinel.s = "sentinel-after-object";
